@@ -336,57 +336,90 @@ def rule_c(ctx):
     raise AnalysisError(f'C09.c found only {n_sites} skip-notification sites')
 
 
+def _leaf_values(idx, f, expr, depth=3):
+  """Possible values of expr as source text: through local definitions,
+  conditional expressions and (one level) the returns of a private helper
+  method called without arguments."""
+  if depth <= 0:
+    return {A.unparse(expr)}
+  if isinstance(expr, ast.IfExp):
+    return _leaf_values(idx, f, expr.body, depth) | _leaf_values(idx, f, expr.orelse, depth)
+  if isinstance(expr, ast.Name):
+    ds = [v for _, v in D.defs_of(f.node, expr.id)]
+    if ds and all(v is not None for v in ds):
+      out = set()
+      for v in ds:
+        out |= _leaf_values(idx, f, v, depth - 1)
+      return out
+    return {expr.id}
+  if isinstance(expr, ast.Call) and not expr.args and not expr.keywords:
+    d = A.call_name(expr) or ''
+    if d.startswith('self._') and d.count('.') == 1:
+      cls = idx.enclosing_class(f)
+      h = idx.lookup_method(cls.fq, d.split('.')[1]) if cls is not None else None
+      if h is not None:
+        out = set()
+        for n in ast.walk(h.node):
+          if isinstance(n, ast.Return) and n.value is not None:
+            out |= _leaf_values(idx, h, n.value, depth - 1)
+        if out:
+          return out
+  return {A.unparse(expr)}
+
+
+STORAGE_READS = ('list.__getitem__', 'dict.get', 'dict.__getitem__', 'super().get', 'super().__getitem__',
+                 'self.sym_getattr', 'self._sym_getattr', 'self.get', 'self.__getitem__')
+
+
 def rule_d(ctx):
   idx = ctx.index
   for cls_fq in (S.LIST, S.DICT):
     f = idx.lookup_method(cls_fq, S.PRIMITIVE)
+    g = C.cfg_of(f.node)
     fus = [c for c in A.calls_in(f.node) if (A.call_name(c) or '').endswith('FieldUpdate')]
     problems = []
     if not fus:
       problems.append('no FieldUpdate constructed')
-    for fu in fus:
-      args = [A.unparse(a, 200) for a in fu.args]
-      if len(args) < 5:
-        problems.append(f'FieldUpdate has {len(args)} positional args')
-        continue
-      path, target, field, old, new = args[:5]
-      if not path.startswith('self.sym_path +'):
-        problems.append(f'path is `{path}`, not self.sym_path + key')
-      if old != 'old_value':
-        problems.append(f'old value is `{old}`')
-      if new != 'new_value':
-        problems.append(f'new value is `{new}`')
-      if cls_fq == S.LIST and target != 'self':
-        problems.append(f'target is `{target}`')
-      if cls_fq == S.DICT and target != 'target':
-        problems.append(f'target is `{target}`')
-    # old_value is read before any raw write
-    g = C.cfg_of(f.node)
-    olddefs = [n for n in g.nodes if n.kind == 'stmt' and isinstance(n.ast, ast.Assign)
-               and 'old_value' in A.assigned_names(n.ast.targets[0])
-               and not (isinstance(n.ast.value, ast.Attribute) or 'MISSING_VALUE' in A.unparse(n.ast.value) and 'get' not in A.unparse(n.ast.value))]
     raw = [n for n in g.nodes if n.ast is not None and any(c08._raw_of_call(idx, f, c) for c in n.calls())]
-    for od in olddefs:
-      for r in raw:
-        seen, _ = g.reach(r, follow_exc=False)
-        if od.id in seen:
-          problems.append('old_value read after a raw write')
-    if not olddefs:
-      problems.append('old_value is never read from storage')
-    # Dict: retarget to parent object when acting as attribute container
-    if cls_fq == S.DICT:
-      tdefs = [n for n in ast.walk(f.node) if isinstance(n, ast.Assign)
-               and 'target' in A.assigned_names(n.targets[0])]
-      leaves = set()
-      for t in tdefs:
-        v = t.value
-        if isinstance(v, ast.IfExp):
-          leaves |= {A.unparse(v.body), A.unparse(v.orelse)}
-        else:
-          leaves.add(A.unparse(v))
-      vals = sorted(leaves)
-      if vals != ['self', 'self.sym_parent']:
-        problems.append(f'update target candidates are {vals}')
+    for fu in fus:
+      if len(fu.args) < 5:
+        problems.append(f'FieldUpdate has {len(fu.args)} positional args')
+        continue
+      path, target, field, old, new = fu.args[:5]
+      pt = A.unparse(path, 200)
+      if not pt.startswith('self.sym_path +'):
+        problems.append(f'path is `{pt}`, not self.sym_path + key')
+      # target: the container itself; for an attribute container the owning object
+      tv = _leaf_values(idx, f, target)
+      want = {'self'} if cls_fq == S.LIST else {'self', 'self.sym_parent'}
+      if tv != want:
+        problems.append(f'update target candidates are {sorted(tv)}, expected {sorted(want)}')
+      # old value: a local read from storage (or the MISSING marker) before any raw write
+      if not isinstance(old, ast.Name):
+        problems.append(f'old value is `{A.unparse(old)}`, not a value saved before the write')
+      else:
+        defs = [(n, D.node_defs(n).get(old.id)) for n in g.nodes if old.id in D.node_defs(n)]
+        reads = [(n, v) for n, v in defs if v is not None and any(
+            (A.call_name(c) or '') in STORAGE_READS for c in A.calls_in(v))]
+        others = [v for n, v in defs if v is not None and (n, v) not in reads and 'MISSING_VALUE' not in A.unparse(v)]
+        if not reads:
+          problems.append('the old value is never read from storage')
+        if others:
+          problems.append('the old value is also defined as ' + ', '.join(f'`{A.unparse(v)}`' for v in others))
+        for n, _ in reads:
+          for r in raw:
+            seen, _p = g.reach(r, follow_exc=False)
+            if n.id in seen:
+              problems.append('the old value is read after a raw write')
+      # new value: what was formalized / stored
+      if not isinstance(new, ast.Name):
+        problems.append(f'new value is `{A.unparse(new)}`, not the stored value')
+      else:
+        nd = [v for _, v in D.defs_of(f.node, new.id) if v is not None]
+        if not any(A.has_call(v, lambda d: d.endswith('_formalized_value')) for v in nd):
+          problems.append('the new value does not derive from _formalized_value')
+        if isinstance(old, ast.Name) and old.id == new.id:
+          problems.append('old and new value are the same variable')
     ctx.ob('C09.d', f.fq, not problems,
            'FieldUpdate carries self.sym_path + key, the old value read before '
            'the write and the value actually stored', f.loc, '; '.join(problems))
